@@ -525,6 +525,32 @@ theorem c16_table_schedule :
   · decide +kernel
   · decide +kernel
 
+/-- the chain 0 → 1 → 2 declared 2, 1, 0 with a handler registered for every module (the sink's returns nothing): whether the
+    run succeeds, the execution order, the handler invocations -/
+private def handlerObjProbe : Bool × List Nat × List Nat :=
+  let p : PortType := ⟨0, 0⟩
+  let d : Diagram :=
+    { modules := [⟨2, [(0, p)], [], []⟩, ⟨1, [(0, p)], [(0, p)], []⟩, ⟨0, [], [(0, p)], []⟩],
+      wires := [⟨0, 0, 1, 0⟩, ⟨1, 0, 2, 0⟩] }
+  let r := execute d (fun m => some (fun _ => .ret (if m = 2 then [] else [(0, .raw m)]))) [] true
+  match r.out with
+  | .ok recs => (true, recs.map (·.name), r.calls.map (·.name))
+  | .error _ => (false, [], r.calls.map (·.name))
+
+/-- "every module runs exactly once" does not depend on what kind of callable the registered handler IS: the real
+    `execute`, run by E6 with the handler of the source / inner / sink module of a chain given as a function, a lambda,
+    a bound method, a `functools.partial`, a callable object, and as callable objects whose OWN TRUTH VALUE IS FALSE
+    (`__bool__` False, `__len__` 0, a collector empty before its first run, an empty list / dict subclass with
+    `__call__`), does what the model does with "a handler is registered": the run succeeds, order 0, 1, 2, each
+    handler invoked exactly once in that order (the model's handler table knows presence only - `is not None`) -/
+theorem c16_table_handler_objects :
+    Gen.WiringFlow.handlerObjects.all (fun row =>
+      row.known && ((row.ok, row.order, row.calls) == handlerObjProbe)) = true ∧
+    handlerObjProbe = (true, [0, 1, 2], [0, 1, 2]) ∧
+    Gen.WiringFlow.handlerObjects.length = 30 ∧
+    (Gen.WiringFlow.handlerObjects.map (·.kind)).eraseDups.length = 10 := by
+  refine ⟨?_, ?_, ?_, ?_⟩ <;> decide +kernel
+
 theorem c16_table_coerce_output_raw :
     Gen.WiringFlow.coerceOutputRaw = rawTab (fun t => ofCoerce (Wiring.coerceOutput (.raw 13) t)) := by
   decide +kernel
